@@ -31,6 +31,13 @@ def index_field(F):
 
 
 def run(ctx):
+    _run(ctx)
+    ctx.delegate("C15", ["C15.R0", "C15.R2", "C15.R1"], "C14.history",
+                 "iteration agrees with random access also when they are interleaved on one reader: random access starts with an "
+                 "absolute seek and leaves the source where a new iterator assumes it; a fresh iterator's believed position is the real one",
+                 floor=3)
+
+def _run(ctx):
     F = ctx.facts("default")
     _OFF['name'] = util.index_entry_fields(F)[0]
     if not _OFF['name']:
